@@ -127,6 +127,19 @@ class RSocketBase(RSocket, RSocketInternal):
 
     def stop_all_streams(self, error_code=ErrorCode.CONNECTION_ERROR, data=b''):
         self._stream_control.stop_all_streams(error_code, data)
+        self._fail_unsent_frames(error_code, data)
+
+    def _fail_unsent_frames(self, error_code: ErrorCode, data: bytes):
+        # a fire-and-forget or metadata-push which is still queued will never be written: settle its awaitable
+        for queue in (self._send_queue, self._request_queue):
+            for frame in list(getattr(queue, '_queue', ())):
+                self._fail_sent_future(frame, error_code, data)
+
+    @staticmethod
+    def _fail_sent_future(frame: Frame, error_code: ErrorCode = ErrorCode.CONNECTION_ERROR, data: bytes = b''):
+        if frame.sent_future is not None and not frame.sent_future.done():
+            frame.sent_future.set_exception(RSocketProtocolError(error_code, data=data))
+            frame.sent_future.exception()  # callers of fire-and-forget rarely await: no 'exception was never retrieved' noise
 
     def _start_tasks(self):
         self._receiver_task = self._start_task_if_not_closing(self._receiver)
@@ -442,7 +455,13 @@ class RSocketBase(RSocket, RSocketInternal):
                 self._before_sender()
                 while self.is_server_alive():
                     async with self._get_next_frame_to_send(transport) as frame:
-                        await transport.send_frame(frame)
+                        try:
+                            await transport.send_frame(frame)
+                        except BaseException:
+                            # taken from the queue but not written (transport failed, or the sender was stopped)
+                            self._fail_sent_future(frame)
+                            raise
+
                         log_frame(frame, self._log_identifier(), 'Sent')
 
                         if frame.sent_future is not None:
